@@ -506,8 +506,93 @@ def run_heartbeat(rec, case):
         w.teardown()
 
 
+def run_reconnect(rec, case):
+    """One client object used for two connections in a row on different
+    transports: what the second connection does (PONG echo, sends, the
+    transport used) is not affected by what the first one left behind."""
+    kind, first, second = case['kind'], case['first'], case['second']
+    rec.evaluations += 1
+    rec.count('reconnect_conversations')
+    rec.key('reconnect/%s/%s/%s' % (kind, first, second))
+    w = cli.make_world(kind, script={'pi': PI, 'pt': PT}, request_timeout=5)
+
+    def V(key, msg):
+        rec.viol(key, msg + ' | client=%s first connection on %s, second on '
+                 '%s (same client object)' % (kind, first, second), case)
+
+    def pongs_and_msgs():
+        posted = [x for po in srv.posts for x in po['body'].split(gen.SEP)]
+        framed = [f['frame'] for f in srv.frames
+                  if isinstance(f['frame'], str)]
+        return posted, framed
+    try:
+        c, srv = w.cli, w.srv
+        for n, tr in enumerate((first, second)):
+            srv.session_closed = False
+            srv.ws = None
+            srv.pollq = srv.mk()
+            posts0, frames0 = len(srv.posts), len(srv.frames)
+            srv.script = {'pi': PI, 'pt': PT}
+            trs = {'polling': ['polling'], 'websocket': ['websocket'],
+                   'upgrade': None}[tr]
+            r = c.call('connect', 'http://srv.test/', transports=trs)
+            w.run_until(lambda: r['done'], 30)
+            if not r['done'] or r['exc'] is not None:
+                V('connect-failed', 'connection %d: %r' % (n + 1, r['exc']))
+                return
+            w.quiesce()
+            on_ws = c.c.transport() == 'websocket'
+            if on_ws != (tr != 'polling'):
+                V('wrong-transport-used', 'connection %d is on %r' % (
+                    n + 1, c.c.transport()))
+                return
+            tag = 'hb%d' % n
+            for k in range(2):
+                if on_ws:
+                    srv.ws.push('2%s.%d' % (tag, k))
+                else:
+                    srv.push('2%s.%d' % (tag, k))
+                w.quiesce()
+                w.advance(0.25)
+            rs = c.call('send', 'msg%d' % n)
+            w.run_until(lambda: rs['done'], 30)
+            w.quiesce()
+            w.advance(0.5)
+            posted = [x for po in srv.posts[posts0:]
+                      for x in po['body'].split(gen.SEP)]
+            framed = [f['frame'] for f in srv.frames[frames0:]
+                      if isinstance(f['frame'], str)]
+            seen = framed if on_ws else posted
+            other = posted if on_ws else [
+                f for f in framed if f not in ('2probe', '5')]
+            rec.count('pong_echo', 2)
+            want = ['3%s.%d' % (tag, k) for k in range(2)]
+            if [x for x in seen if x.startswith('3')] != want:
+                V('pong-echo', 'connection %d (%s): PINGs %r were answered '
+                  'with %r on the transport in use (other transport: %r)' % (
+                      n + 1, c.c.transport(), want,
+                      [x for x in seen if x.startswith('3')], other))
+                return
+            if '4msg%d' % n not in seen:
+                V('upstream-lost', 'connection %d: send() not transmitted on '
+                  'the transport in use: %r' % (n + 1, seen))
+                return
+            rd = c.call('disconnect')
+            w.run_until(lambda: rd['done'], 30)
+            w.quiesce()
+            w.advance(1)
+            if c.c.state != 'disconnected':
+                V('state-not-reset', 'state %r after disconnect()' %
+                  c.c.state)
+                return
+    finally:
+        w.teardown()
+
+
 def dispatch(rec, case):
-    if case.get('hb'):
+    if case.get('reconnect'):
+        run_reconnect(rec, case)
+    elif case.get('hb'):
         run_heartbeat(rec, case)
     elif case.get('url'):
         run_url(rec, case)
@@ -531,6 +616,11 @@ def run_shard(spec):
         c['real'] = True
     cases += [{'seed': spec['seed'], 'i': spec['shard'] * 1000000 + k,
                'url': True} for k in range(spec['nu'])]
+    if spec['shard'] == 1:
+        cases += [{'reconnect': True, 'kind': k, 'first': a, 'second': b}
+                  for k in 'TAR'
+                  for a in ('polling', 'websocket', 'upgrade')
+                  for b in ('polling', 'websocket', 'upgrade')]
     if spec['shard'] == 0:
         cases += [{'hb': list(hb), 'kind': k, 'transport': tr}
                   for hb in HEARTBEATS for k in 'TAR'
